@@ -701,6 +701,93 @@ static std::vector<ModelS> makeMOpsAll()
     return all;
 }
 
+// ---- family CHAIN: units defined through 1-4 levels of other units, with an exponent (and optionally a prefix and a
+// multiplier) at EVERY level, used by one of two connected variables; the other variable has flat units base^p.
+// The pairing is valid exactly when p equals the PRODUCT of the exponents along the chain (reduction done here, with
+// exact binary fractions; nothing of the library is consulted). Valid pairings are judged by oracle 1 (zero issues),
+// invalid ones by oracle 2 (an ERROR citing MAP_VARIABLES_ELEMENT): the candidates for p are the answers a wrong
+// reduction would give (innermost exponent only, outer exponent dropped, outer exponent only, sign lost, 1).
+struct ChainParam { std::vector<double> e; unsigned deco; int inner; double p; bool direct; int layout; bool swap; };
+static const std::vector<std::pair<std::string, std::vector<std::pair<std::string, double>>>> &chainInner()
+{ // innermost reference and its base dimensions (from the CellML 2.0 table of standard units; "ub" is a model base unit)
+    static const std::vector<std::pair<std::string, std::vector<std::pair<std::string, double>>>> t = {
+        {"metre", {{"metre", 1}}}, {"ub", {{"ub", 1}}}, {"litre", {{"metre", 3}}}, {"newton", {{"kilogram", 1}, {"metre", 1}, {"second", -2}}}};
+    return t;
+}
+static double chainProduct(const ChainParam &c) { double r = 1; for (double x : c.e) r *= x; return r; }
+static const std::vector<ChainParam> &chainParams()
+{
+    static std::vector<ChainParam> all;
+    if (!all.empty()) return all;
+    std::vector<double> E = {1, 2, -1, 0.5};
+    if (THOROUGH) E.push_back(3);
+    for (int L = 1; L <= 4; ++L) {
+        uint64_t n = 1;
+        for (int i = 0; i < L; ++i) n *= E.size();
+        for (uint64_t code = 0; code < n; ++code) {
+            std::vector<double> e;
+            uint64_t c = code;
+            for (int i = 0; i < L; ++i) { e.push_back(E[c % E.size()]); c /= E.size(); }
+            std::vector<unsigned> decos;
+            if (THOROUGH) for (unsigned d = 0; d < (1u << L); ++d) decos.push_back(d);
+            else decos = {0u, (1u << L) - 1, 0x5u & ((1u << L) - 1)};
+            std::sort(decos.begin(), decos.end());
+            decos.erase(std::unique(decos.begin(), decos.end()), decos.end());
+            for (unsigned deco : decos) for (int inner = 0; inner < int(chainInner().size()); ++inner) {
+                if (!THOROUGH && inner >= 2 && deco != 0) continue;
+                ChainParam base {e, deco, inner, 1, false, 0, false};
+                double prod = chainProduct(base);
+                std::vector<double> ps = {prod, e.back(), prod / e.front(), e.front(), 1.0, -prod, prod * 2};
+                std::sort(ps.begin(), ps.end());
+                ps.erase(std::unique(ps.begin(), ps.end()), ps.end());
+                for (double p : ps) for (int layout = 0; layout < 2; ++layout) for (int sw = 0; sw < 2; ++sw) {
+                    if (!THOROUGH && (layout + sw + int(code)) % 2) continue;
+                    all.push_back({e, deco, inner, p, false, layout, sw == 1});
+                }
+                // the other variable names the innermost unit itself (p = 1 without a units definition of its own)
+                all.push_back({e, deco, inner, 1.0, true, int(code % 2), (code / 2) % 2 == 1});
+            }
+        }
+    }
+    return all;
+}
+static ModelS makeChain(const ChainParam &c)
+{
+    ModelS m;
+    int L = int(c.e.size());
+    auto &inner = chainInner()[size_t(c.inner)];
+    std::vector<UnitsS> us;
+    for (int i = 0; i < L; ++i) {
+        bool d = c.deco >> i & 1;
+        us.push_back(mkUnits("k" + std::to_string(i), {{i + 1 < L ? "k" + std::to_string(i + 1) : inner.first, d ? (i % 2 ? "kilo" : "-3") : "", c.e[size_t(i)], d ? 10.0 : 1.0, ""}}));
+    }
+    if (c.deco & 1) std::reverse(us.begin(), us.end()); // definition order must not matter
+    m.units = us;
+    if (inner.first == "ub") m.units.push_back(mkUnits("ub", {}));
+    std::string other = inner.first;
+    if (!c.direct) {
+        UnitsS flat = mkUnits("flat", {});
+        for (auto &d : inner.second) flat.unit.push_back({d.first, "", d.second * c.p, 1.0, ""});
+        if (inner.first == "litre" && c.p == 1.0) flat.unit = {{"litre", "", 1.0, 1.0, ""}};
+        m.units.insert(m.units.begin(), flat);
+        other = "flat";
+    }
+    for (int k = 0; k < 2; ++k) {
+        CompS x;
+        x.name = "c" + std::to_string(k);
+        x.parent = c.layout ? k - 1 : -1;
+        x.vars.push_back({"x", "", (k == 0) != c.swap ? "k0" : other, "", ""});
+        m.comps.push_back(x);
+    }
+    if (c.swap) m.eqs.push_back({{1, 0}, {0, 0}, "", ""}); else m.eqs.push_back({{0, 0}, {1, 0}, "", ""});
+    computeInterfaces(m, false);
+    std::string d = "CHAIN exps=";
+    for (double x : c.e) d += dbl(x) + ",";
+    d += " deco=" + std::to_string(c.deco) + " inner=" + inner.first + " other=" + (c.direct ? inner.first : "flat^" + dbl(c.p)) + " layout=" + std::to_string(c.layout) + " swap=" + std::to_string(c.swap) + " product=" + dbl(chainProduct(c));
+    m.desc = d;
+    return m;
+}
+
 // ---- family CYC: the one crash class C04 meets by design — cyclic units that ARE used by connected variables.
 // (DESIGN section 4 #2: updateBaseUnitCount recurses without a visited set.) These are faulted models; the verdict
 // expected is UNIT_UNITS_CIRCULAR_REFERENCE without a crash.
@@ -1813,6 +1900,32 @@ int main(int argc, char **argv)
                             }
                         },
                         [](uint64_t i) { ModelS s = makeCyc(int(i % 3) + 1, int(i / 3)); return json {{"family", "cyc"}, {"base", s.desc}, {"model", printed(buildModel(s, nullptr)->model)}}; }});
+    // units chains under a connection: valid and invalid pairings, verdict from the harness's own reduction
+    families.push_back({"chain", []() { return uint64_t(chainParams().size()); },
+                        [](uint64_t i, Ctx &ctx) {
+                            const ChainParam &c = chainParams().at(size_t(i));
+                            ModelS s = makeChain(c);
+                            auto b = buildModel(s, &ctx);
+                            auto v = Validator::create();
+                            v->validateModel(b->model);
+                            ctx.logger(v, "validator");
+                            ++ctx.judged;
+                            bool valid = c.p == chainProduct(c);
+                            std::string depth = "depth-" + std::to_string(c.e.size());
+                            if (valid) {
+                                ctx.count("chain-valid-pairings");
+                                if (v->issueCount() == 0) { ctx.outcome("chain-valid-pairing:accepted"); return; }
+                                ctx.outcome("chain-valid-pairing:REJECTED");
+                                ctx.violation("valid-base-rejected:chain:" + depth + ":" + issuedRules(v, false), {{"base", s.desc}, {"issues", issuesJson(v, 12)}, {"model", printed(b->model)}});
+                                return;
+                            }
+                            ctx.count("loc:conn-units-incompatible-chain");
+                            if (hasRule(v, Rule::MAP_VARIABLES_ELEMENT)) { ctx.outcome("conn-units-incompatible-chain:reported"); return; }
+                            ctx.outcome(std::string("conn-units-incompatible-chain:MISSED-") + (v->errorCount() ? "other-rules-only" : "no-error"));
+                            ctx.violation("fault-not-reported:conn-units-incompatible-chain:" + depth + ":" + (v->errorCount() ? "other-rules-only" : "no-error"),
+                                          {{"base", s.desc}, {"issues", issuesJson(v, 12)}, {"faulted_model", printed(b->model)}});
+                        },
+                        [](uint64_t i) { ModelS s = makeChain(chainParams().at(size_t(i))); return json {{"family", "chain"}, {"base", s.desc}, {"expected", chainParams().at(size_t(i)).p == chainProduct(chainParams().at(size_t(i))) ? "zero issues" : "ERROR MAP_VARIABLES_ELEMENT"}, {"model", printed(buildModel(s, nullptr)->model)}}; }});
     // `injectors`: the catalogue, for the supervisor's vacuity check
     if (argc >= 2 && std::string(argv[1]) == "per") { // cases per base, by family
         json o = json::object();
@@ -1824,6 +1937,7 @@ int main(int argc, char **argv)
         json a = json::array();
         for (auto &x : all) a.push_back(x.name);
         a.push_back("units-cycle-under-connection");
+        a.push_back("conn-units-incompatible-chain");
         puts(a.dump().c_str());
         return 0;
     }
